@@ -325,6 +325,8 @@ def c06_cleanup(obs, case=None):
         if "collect-attempt" in names:
             ops = [(j, "collect" if o == "collect-attempt" else o) for j, o in ops]
         ns, nu, na = names.count("stage"), names.count("unstage"), names.count("unstage-attempt")
+        if ns > 1:
+            ns = max(1, min(ns, nu))  # staging a device twice in one call is outside the bound: only require that it was unstaged
         if ns and not (nu == ns or (nu < ns <= nu + na)):
             tags.append("device-staged-and-unstaged-unequal-times")
         if "set" in names:
